@@ -17,6 +17,7 @@ pub struct E57Writer<T: Read + Write + Seek> {
     images: Vec<Image>,
     root: Root,
     finalize_failed: bool,
+    finalized: bool,
 }
 
 impl<T: Write + Read + Seek> E57Writer<T> {
@@ -49,6 +50,7 @@ impl<T: Write + Read + Seek> E57Writer<T> {
             extensions: Vec::new(),
             root,
             finalize_failed: false,
+            finalized: false,
         })
     }
 
@@ -68,6 +70,7 @@ impl<T: Write + Read + Seek> E57Writer<T> {
         guid: &str,
         prototype: Vec<Record>,
     ) -> Result<PointCloudWriter<T>> {
+        self.check_not_finalized()?;
         Extension::validate_prototype(&prototype, &self.extensions)?;
         PointCloudWriter::new(&mut self.writer, &mut self.pointclouds, guid, prototype)
     }
@@ -75,16 +78,27 @@ impl<T: Write + Read + Seek> E57Writer<T> {
     /// Adds a new binary data section to the E57 file.
     /// This feature is only required for custom data and extensions!
     pub fn add_blob(&mut self, reader: &mut dyn Read) -> Result<Blob> {
+        self.check_not_finalized()?;
         Blob::write(&mut self.writer, reader)
     }
 
     /// Creates a new image writer for adding an image to the E57 file.
     pub fn add_image(&mut self, guid: &str) -> Result<ImageWriter<T>> {
+        self.check_not_finalized()?;
         ImageWriter::new(&mut self.writer, &mut self.images, guid)
+    }
+
+    /// The file is complete after finalizing, additional data would overwrite the existing content.
+    fn check_not_finalized(&self) -> Result<()> {
+        if self.finalized {
+            Error::invalid("The file was already finalized, it cannot be changed or finalized again")?
+        }
+        Ok(())
     }
 
     /// Registers a new E57 extension used by this file.
     pub fn register_extension(&mut self, extension: Extension) -> Result<()> {
+        self.check_not_finalized()?;
         Extension::validate_name(&extension.namespace)?;
         if self
             .extensions
@@ -121,6 +135,7 @@ impl<T: Write + Read + Seek> E57Writer<T> {
         &mut self,
         transformer: impl Fn(String) -> Result<String>,
     ) -> Result<()> {
+        self.check_not_finalized()?;
         let xml = serialize_root(
             &self.root,
             &self.pointclouds,
@@ -137,6 +152,8 @@ impl<T: Write + Read + Seek> E57Writer<T> {
         let result = self.write_xml_and_header(&xml);
         if result.is_err() {
             self.finalize_failed = true;
+        } else {
+            self.finalized = true;
         }
         result
     }
